@@ -143,5 +143,28 @@ func dischargeOne(vc *FuncVC, o *Obligation, dir string, idx int, timeoutS int, 
 		}
 	}
 	r.Seconds = total
+	if r.Status != "unsat" && r.Status != "sat" && !o.Planted && o.Goal != "false" {
+		// refutation check: if guard together with the goal is unsatisfiable, the obligation is false on every
+		// execution that reaches it (definite failure, even without a model)
+		var sb strings.Builder
+		sb.WriteString(vc.Prelude)
+		for _, a := range vc.Asserts {
+			sb.WriteString("(assert ")
+			sb.WriteString(a)
+			sb.WriteString(")\n")
+		}
+		tail := fmt.Sprintf("; refutation check for %s\n(assert %s)\n(assert %s)\n", o.Name, o.Guard, o.Goal)
+		sb.WriteString(injectivityAxioms(sb.String()+tail, vc.IfaceSorts))
+		sb.WriteString(tail)
+		sb.WriteString("(check-sat)\n")
+		f2 := filepath.Join(dir, fmt.Sprintf("%s.refute.smt2", sanitize(o.Name)))
+		_ = os.WriteFile(f2, []byte(sb.String()), 0o644)
+		st, _, secs := runSolver(Solvers[0], f2, 3)
+		r.Seconds += secs
+		if st == "unsat" {
+			r.Tried = append(r.Tried, "refutation-check:goal-contradicts-path")
+			r.Status = "refuted"
+		}
+	}
 	return r
 }
